@@ -132,3 +132,135 @@ fn vk_c20_canary_see() {
     kani::assume(c.game.board.occupancy().count() <= 5);
     assert!(see(&c.game, c.mv, Eval(0))); // must FAIL: e.g. QxP defended by a pawn
 }
+
+// ---------------------------------------------------------------------------------------------------------------
+// C20.swaplist: agreement with an INDEPENDENT swap-list computation (rules-of-chess attacks on the mailbox, least
+// valuable attacker first, minimax of the gain list) on positions with at most K_MEN men, where at every step the least
+// valuable attacker is unique in value (so the choice among equally valued attackers cannot matter).
+// ---------------------------------------------------------------------------------------------------------------
+use crate::verif_support::rules;
+pub const K_MEN: usize = 6;
+
+/// value of the least valuable piece of `side` attacking `to` on `mb`, its square, and whether that minimum is unique
+fn least_attacker(mb: &sym::Mailbox, squares: &[u8; K_MEN], side: Player, to: u8) -> Option<(u8, PieceKind, bool)> {
+    let mut best: Option<(u8, PieceKind)> = None;
+    let mut unique = true;
+    let mut i = 0;
+    while i < K_MEN {
+        let s = squares[i];
+        if s != to {
+            if let Some(p) = mb[s as usize] {
+                if p.player == side && rules::piece_attacks(mb, p, s, to) {
+                    match best {
+                        None => {
+                            best = Some((s, p.kind));
+                            unique = true;
+                        }
+                        Some((_, bk)) => {
+                            if val(p.kind) < val(bk) {
+                                best = Some((s, p.kind));
+                                unique = true;
+                            } else if val(p.kind) == val(bk) {
+                                unique = false;
+                            }
+                        }
+                    }
+                }
+            }
+        }
+        i += 1;
+    }
+    best.map(|(s, k)| (s, k, unique))
+}
+fn any_attacker(mb: &sym::Mailbox, squares: &[u8; K_MEN], side: Player, to: u8) -> bool {
+    least_attacker(mb, squares, side, to).is_some()
+}
+
+//@ obligation: C20.swaplist
+//@ domain: bounded(<= 6 men on the board)
+//@ functions: engine/see.rs::see
+//@ timeout: 3000
+//@ mem_gb: 12
+//@ note: positions with up to 6 men at arbitrary squares, every shape-valid non-en-passant, non-promoting capture, threshold 0: whenever at every step of the exchange the least valuable attacker is unique in value, the verdict equals (minimax value of the independent swap list >= 0); x-ray attackers behind exchanged pieces are found by recomputing rule-based attacks on the updated mailbox
+//@ assumes: table lookups == geometry (C07); bound of 6 men
+#[kani::proof]
+#[kani::unwind(8)]
+//@@stubs-tables
+fn vk_c20_swaplist() {
+    // K_MEN men on distinct squares (some may be absent)
+    let mut mb: sym::Mailbox = [None; 64];
+    let mut squares = [0u8; K_MEN];
+    let mut board = sym::empty_board();
+    let mut i = 0;
+    while i < K_MEN {
+        let s = geo::any_square();
+        let mut j = 0;
+        while j < i {
+            kani::assume(squares[j] != s.idx());
+            j += 1;
+        }
+        squares[i] = s.idx();
+        if i < 2 || kani::any() {
+            let p = sym::any_piece();
+            mb[s.array_idx()] = Some(p);
+            board.set_at(s, p);
+        }
+        i += 1;
+    }
+    let mut game = symgame::game_with_board(board);
+    game.en_passant_target = None;
+    let player = game.player;
+    let them = player.other();
+    let (from, to) = (squares[0], squares[1]);
+    let mover = mb[from as usize].unwrap();
+    let captured = mb[to as usize].unwrap();
+    kani::assume(mover.player == player && captured.player == them && captured.kind != PieceKind::King);
+    // shape-valid: the mover attacks the target; no promotion
+    kani::assume(rules::piece_attacks(&mb, mover, from, to));
+    kani::assume(!(mover.kind == PieceKind::Pawn && (to / 8 == 0 || to / 8 == 7)));
+    let mv = Move::capture(Square::from_index(from), Square::from_index(to));
+    let got = see(&game, mv, Eval(0));
+
+    // ---- independent swap list ----
+    let mut gains = [0i32; K_MEN + 1];
+    let mut depth = 0usize;
+    gains[0] = val(captured.kind) as i32;
+    let mut w = mb;
+    w[from as usize] = None;
+    w[to as usize] = Some(mover);
+    let mut on_square = mover.kind;
+    let mut side = them;
+    let mut all_unique = true;
+    let mut step = 0;
+    while step < K_MEN {
+        if let Some((s, k, unique)) = least_attacker(&w, &squares, side, to) {
+            // a king cannot capture a defended piece
+            let defended = any_attacker(&w, &squares, side.other(), to);
+            if !(k == PieceKind::King && defended) && depth == step {
+                if !unique {
+                    all_unique = false;
+                }
+                depth += 1;
+                gains[depth] = val(on_square) as i32 - gains[depth - 1];
+                w[s as usize] = None;
+                w[to as usize] = Some(Piece::new(side, k));
+                on_square = k;
+                side = side.other();
+            }
+        }
+        step += 1;
+    }
+    kani::assume(all_unique);
+    // minimax: either side may stop capturing
+    let mut d = depth;
+    while d > 0 {
+        let a = -gains[d - 1];
+        let b = gains[d];
+        gains[d - 1] = -(if a > b { a } else { b });
+        d -= 1;
+    }
+    kani::cover!(depth >= 3);
+    kani::cover!(depth >= 2 && got);
+    assert!(got == (gains[0] >= 0));
+    std::mem::forget(game);
+}
